@@ -625,7 +625,7 @@ def gen_type(rng, depth=4):
 def gen_any_value(rng, depth=2):
     r = rng.random()
     if depth <= 0 or r < 0.6:
-        return rng.choice([None, True, 0, 5, {"f": "1.5"}, "abc", "1", "null", "[1]", ""])
+        return rng.choice([None, True, 0, 5, {"f": "1.5"}, "abc", "1", "null", "[1]", "", "'123'", "'true'", "'null'", "'4.5'", "\"007\"", "'abc'", " 'x' "])
     if r < 0.8:
         return [gen_any_value(rng, depth - 1) for _ in range(rng.randint(0, 2))]
     return {"d": [[k, gen_any_value(rng, depth - 1)] for k in rng.sample(["a", "b"], rng.randint(0, 2))]}
